@@ -124,10 +124,21 @@ var kindOrder = []string{"noti", "reset", "remove", "add", "sync", "connect", "c
 
 var names = []string{"a", "b", "c"}
 
+// oddNames replace the alphabet in one scenario out of five: a name that is a string prefix of
+// another, names with the separators of joined representations, a multi-byte character, a name differing in case.
+var oddNames = []string{"a", "ab", "a/b", "a b", "aé", "A"}
+var useOddNames bool
+
 func genElem(t *rapid.T, glob, small bool) gn.Elem {
 	alpha := names
 	if small {
 		alpha = []string{"a", "b"}
+	}
+	if useOddNames {
+		alpha = oddNames
+		if small {
+			alpha = oddNames[:3]
+		}
 	}
 	if glob {
 		alpha = append(append([]string{}, alpha...), "*", "*")
@@ -314,6 +325,7 @@ func genStep(pr profile, targets int, thr int64) func(t *rapid.T) Step {
 func genScenario(prop string) func(t *rapid.T) *Scenario {
 	pr := profiles[prop]
 	return func(t *rapid.T) *Scenario {
+		useOddNames = rapid.IntRange(0, 4).Draw(t, "odd-names") == 0
 		sc := &Scenario{Targets: rapid.IntRange(pr.minTargets, pr.maxTargets).Draw(t, "targets")}
 		sc.EventDriven = rapid.IntRange(0, 3).Draw(t, "eventdriven") > 0
 		if pr.threshold && rapid.IntRange(0, 2).Draw(t, "usethr") == 0 {
